@@ -54,7 +54,7 @@ def kernel_cases(ctx):
     import c03lib
     g = ctx.gen
     mans = ctx.manifests
-    n = ctx.n(480, 4800)
+    n = ctx.n(360, 4800)
     for k in ('rg_z_offset', 'rg_origins', 'rg_generate'):
         if k not in mans:
             continue
